@@ -262,6 +262,13 @@ func runParent(chk *checks.Check, tier string, seed int64, procs, secs int, evid
 	}
 	if harnessErr != "" {
 		fmt.Fprintln(os.Stderr, "HARNESS ERROR:", harnessErr)
+		if nviol > 0 {
+			// the reported violations were each reproduced five times; the
+			// harness error (typically a further finding that did not
+			// reproduce, i.e. behaviour that varies from run to run) is
+			// additional information
+			return 1
+		}
 		return 2
 	}
 	if nviol > 0 {
